@@ -122,6 +122,14 @@ def schedKillDuringTry : List (Nat × Act) :=
    (0, .release true), (0, .store),
    (1, .raw false), (1, .retest)]
 
+/-- the same on the shared path: A holds exclusively; B's `try_read` is in flight when A's raw unlock
+releases-then-panics -/
+def schedKillDuringTryRead : List (Nat × Act) :=
+  [(0, .start false .x), (0, .raw false), (0, .retest),
+   (1, .start true .s),
+   (0, .release true), (0, .store),
+   (1, .raw false), (1, .retest)]
+
 /-- the residual window: the waiter gets the raw lock and re-tests *between* a raw unlock that
 releases-then-panics and the store of the flag -/
 def schedResidual : List (Nat × Act) :=
@@ -154,7 +162,9 @@ def Pc.show : Pc → String
 def scenarioLines (retest : Bool) : List String :=
   let a := run retest (init 3) schedKillWhileWaiting
   let b := run retest (init 2) schedKillDuringTry
+  let c := run retest (init 2) schedKillDuringTryRead
   [ s!"kill_while_waiting;waiter_got={(a.pc 1).show}",
-    s!"kill_during_try;in_flight_try_got_guard={(b.pc 1).isHolding}" ]
+    s!"kill_during_try;in_flight_try_got_guard={(b.pc 1).isHolding}",
+    s!"kill_during_try_read;in_flight_try_got_guard={(c.pc 1).isHolding}" ]
 
 end HLV.Kill
